@@ -1101,3 +1101,80 @@ Example copy_build_from_live_model_example :
   | _ => False
   end.
 Proof. vm_compute. repeat split; reflexivity. Qed.
+
+(* ------------------------------------------------------------------------------------------ *)
+(* reserved names: the build-time check and the pop / copy filter agree; seed names match the
+   stripping pattern whatever the seeded node is called later                                  *)
+Theorem build_accepts_pop_keeps : forall s, build_reserved s = false -> pop_dropped s = false.
+Proof. intros s H. exact H. Qed.
+
+Theorem pop_keeps_accepted_nodes : forall w m i,
+  In i (m_nodes m) -> build_reserved (name_of w i) = false -> In i (popped_nodes w m).
+Proof.
+  intros w m i Hi Hr. unfold popped_nodes. apply filter_In. split; [assumption|].
+  now rewrite (build_accepts_pop_keeps _ Hr).
+Qed.
+
+(* a narrower build-time check (prefix "_model_" only, seeded change C15-4) would accept names that pop
+   and copy drop *)
+Theorem narrow_reserved_check_refuted :
+  exists s, prefix "_model_" s = false /\ pop_dropped s = true /\
+            popped_nodes (mkW [mkN s [] [] None None false false true [] []] [] []) (mkM [0] []) = [].
+Proof. exists "_modelled_mean"%string. vm_compute. auto. Qed.
+
+Lemma list_ascii_app : forall a b,
+  list_ascii_of_string (a ++ b)%string = list_ascii_of_string a ++ list_ascii_of_string b.
+Proof. induction a as [|c a IH]; intros b; cbn; [reflexivity|]. now rewrite IH. Qed.
+
+Lemma prefix_app_list : forall a b, prefix (string_of_list_ascii a) (string_of_list_ascii (a ++ b)) = true.
+Proof.
+  induction a as [|c a IH]; intros b; cbn.
+  - destruct (string_of_list_ascii b); reflexivity.
+  - destruct (ascii_dec c c) as [_|N]; [apply IH|now elim N].
+Qed.
+
+Lemma suffixb_app : forall x suf, suffixb suf (x ++ suf)%string = true.
+Proof.
+  intros x suf. unfold suffixb. rewrite list_ascii_app, rev_app_distr. apply prefix_app_list.
+Qed.
+
+Lemma prefix_append : forall a b, prefix a (a ++ b)%string = true.
+Proof.
+  induction a as [|c a IH]; intros b; cbn; [destruct b; reflexivity|].
+  destruct (ascii_dec c c) as [_|N]; [apply IH|now elim N].
+Qed.
+
+Theorem seed_name_matches_pattern : forall nm, is_model_seed_name (seed_name_for nm) = true.
+Proof.
+  intros nm. unfold is_model_seed_name, seed_name_for. apply andb_true_iff. split.
+  - apply prefix_append.
+  - change (suffixb "_seed" (("_model_" ++ nm) ++ "_seed")%string = true). apply suffixb_app.
+Qed.
+
+(* the stale seed input of a free node is removed by the next build whatever the node is called now *)
+Theorem strip_one_removes_stale_seed : forall w i n s nm,
+  getn w i = Some n -> kw_find "seed" (n_kw n) = Some s -> n_inmodel n = false ->
+  name_of w s = seed_name_for nm ->
+  strip_one w i = setn w i (set_kw (kw_remove "seed" (n_kw n))).
+Proof.
+  intros w i n s nm G K M N. unfold strip_one. rewrite G, K, M, N.
+  now rewrite seed_name_matches_pattern.
+Qed.
+
+(* build, pop, rename the seeded node (s -> t), rebuild: accepted, with a fresh seed node for the new
+   name.  Matching the stale seed by the exact name f"_model_{node.name}_seed" instead of the pattern
+   (seeded change C15-6) would keep it: the pattern holds, the exact comparison fails *)
+Example rename_between_pop_and_rebuild_example :
+  match build true true true naive_topo false ex_seeded [] [0] with
+  | (w1, Ok m1) =>
+    let w2 := fst (mutate true (pop w1 m1) (TNode 1) (MSetName "t")) in
+    match build true true true naive_topo false w2 (popped_nodes w2 m1) (m_vars m1) with
+    | (w3, Ok m3) => In "_model_t_seed"%string (map (name_of w3) (m_nodes m3)) /\
+                     ~ In "_model_s_seed"%string (map (name_of w3) (m_nodes m3)) /\
+                     is_model_seed_name "_model_s_seed" = true /\
+                     String.eqb "_model_s_seed" (seed_name_for "t") = false
+    | _ => False
+    end
+  | _ => False
+  end.
+Proof. vm_compute. repeat split; try tauto. intros H. repeat destruct H as [H|H]; try discriminate; exact H. Qed.
